@@ -45,6 +45,22 @@ structure Wf (cfg : Cfg) (s : State) : Prop where
   bufDistinct : ∀ i j x y, getI s i = some x → getI s j = some y → i ≠ j →
     x.live = true → y.live = true → x.buf ≠ y.buf
 
+/-- `Wf` generalised to the middle of an operation: `ex` lists the owners of heap descriptors
+currently held in LOCAL variables (taken out of the pool, freshly cloned, freshly boxed …) —
+the code's `Allocated` copies that are `forget`-ten, `explicit_drop`-ped or re-installed later.
+`Wf cfg s ↔ WfX cfg s []`. -/
+structure WfX (cfg : Cfg) (s : State) (ex : List Nat) : Prop where
+  handles : ∀ h hd, getH s h = some hd → HandleOk cfg s hd
+  held : ∀ i, i ∈ ex → ∃ x, getI s i = some x ∧ x.live = true
+  counts : ∀ i x, getI s i = some x → x.live = true → refsTo s i + ex.count i = x.count + 1
+  uniq : cfg.backend = .unique → ∀ i x, getI s i = some x → x.live = true → x.count = 0
+  ceil : ∀ i x, getI s i = some x → x.live = true → x.count ≤ cfg.ceil
+  dead : ∀ i x, getI s i = some x → x.live = false → refsTo s i = 0
+  datacap : ∀ i x, getI s i = some x → x.live = true → x.data.length ≤ x.cap
+  bufFresh : ∀ i x, getI s i = some x → x.buf < s.nextBuf
+  bufDistinct : ∀ i j x y, getI s i = some x → getI s j = some y → i ≠ j →
+    x.live = true → y.live = true → x.buf ≠ y.buf
+
 /-- abstraction: what every handle reads back -/
 def abs (s : State) : Spec.Std.SPool := s.pool.map (Option.map (view s))
 
